@@ -161,10 +161,9 @@ Section PathSame.
   Lemma plain_param_field : forall t, wire_plain t = true -> param_field t = (infer t, snd (is_opt t)).
   Proof.
     intros t Hp. unfold param_field.
-    assert (forall u, wire_plain u = true -> is_data (unwrap_ann u) = false) as Hu
-      by (intros u Hq; destruct u; simpl in *; try discriminate; try reflexivity; apply plain_not_data; exact Hq).
-    destruct t; simpl in *; try discriminate; try reflexivity;
-      first [rewrite Hu by exact Hp | rewrite plain_not_data by exact Hp]; reflexivity.
+    pose proof (unwrap_plain _ (is_opt_plain t Hp)) as Hb. pose proof (is_opt_infer t) as Hi.
+    destruct (is_opt t) as [inner nullable]. simpl in *.
+    rewrite plain_not_data by exact Hb. rewrite Hi. reflexivity.
   Qed.
 
   Lemma param_path_same : forall t v v',
